@@ -11,6 +11,10 @@ replay: every configuration is rendered as an equation block and run on the real
         or - "late" - a different value assigned to
         solver.MaxTime after EquationSolver(<block>) / after ParseString(<block>), which must have
         no effect on the solve); a seeded sample is also run
+        Histories of two blocks are parsed (and solved) one after the other on ONE solver object:
+        the second block's horizon is its own MaxTime line unless the USER wrote solver.MaxTime
+        (before a parse or late) - a value that merely stood in the first block does not survive.
+        The clauses are judged for every round.  A seeded sample is also run
           * with seeded random float values in place of the small integers ("float dress"),
           * through the model API (Model / Country / Sector, AddVariable, SetExogenous /
             AddExogenous, AddInitialCondition, MaxTime, main(), GetTimeSeries).
@@ -55,12 +59,12 @@ def horizon_of(cfg):
 
 
 def in_block(cfg):
-    return cfg['where'] in ('block', 'both') or cfg['where'] in LATE
+    return cfg['where'] in ('block', 'ctor', 'both', 'kept') or cfg['where'] in LATE
 
 
 def block_maxtime(cfg):
     """value of the MaxTime line; with 'both' it differs from the value set on the solver, which must win"""
-    return cfg['bmax'] if cfg['where'] == 'both' else cfg['horizon']
+    return cfg['bmax'] if cfg['where'] in ('both', 'kept') else cfg['horizon']
 
 
 def _rand_float(rng):
@@ -261,49 +265,85 @@ def observe_series(cfg, sup, ts, prefix, getter=None):
 
 
 def _no_solve(exc, dress):
-    return {'ev': 'Solve', 'dress': dress, 'ok': False, 'exc': exc, 'ts_empty': True, 'taxis': False, 'obs': []}
+    return {'ev': 'Solve', 'round': 1, 'dress': dress, 'ok': False, 'exc': exc, 'ts_empty': True, 'taxis': False,
+            'obs': []}
 
 
 # --------------------------------------------------------------------------------------
 # execution on the real code
 # --------------------------------------------------------------------------------------
 
-def execute_block(cfg, dress, fseed):
+def shown_text(cfg, text, fresh):
+    pre = '' if fresh else '>>> same solver object, next block:\n'
+    if cfg['where'] in LATE:
+        return pre + text + '\n>>> after %s: solver.MaxTime = %d' % (
+            'EquationSolver(block)' if cfg['where'] == 'late_ctor' else 'ParseString(block)', cfg['late'])
+    if cfg['where'] in ('solver', 'both'):
+        return pre + '>>> before ParseString(block): solver.MaxTime = %d\n' % cfg['horizon'] + text
+    if cfg['where'] == 'ctor':
+        return pre + '>>> EquationSolver(block):\n' + text
+    if cfg['where'] == 'kept':
+        return pre + '>>> solver.MaxTime still holds the %d written in the previous round\n' % cfg['horizon'] + text
+    return pre + text
+
+
+def run_round(solver, cfg, dress, fseed):
+    """One round (parse, and solve unless cfg['solve'] is false) on `solver`, or on a new EquationSolver when
+    solver is None.  -> (events, text, solver)"""
     from sfc_models.equation_solver import EquationSolver
+    fresh = solver is None
     sup = supplied_values(cfg, dress, fseed)
     text = render_block(cfg, sup)
-    if cfg['where'] in LATE:
-        text_shown = text + '\n>>> after %s: solver.MaxTime = %d' % (
-            'EquationSolver(block)' if cfg['where'] == 'late_ctor' else 'ParseString(block)', cfg['late'])
-    elif cfg['where'] in ('solver', 'both'):
-        text_shown = '>>> before ParseString(block): solver.MaxTime = %d\n' % cfg['horizon'] + text
-    else:
-        text_shown = text
-    pe = {'ev': 'Parse', 'cfg': cfg, 'api': 'block', 'dress': dress, 'ok': True, 'exc': '',
+    text_shown = shown_text(cfg, text, fresh)
+    pe = {'ev': 'Parse', 'fresh': fresh, 'cfg': cfg, 'api': 'block', 'dress': dress, 'ok': True, 'exc': '',
           'classes': [], 'maxtime': 0}
     try:
-        if cfg['where'] == 'late_ctor':
+        if fresh and cfg['where'] in ('ctor', 'late_ctor'):
             solver = EquationSolver(text, run_equation_reduction=bool(cfg['reduce']))
         else:
-            solver = EquationSolver(run_equation_reduction=bool(cfg['reduce']))
+            if fresh:
+                solver = EquationSolver(run_equation_reduction=bool(cfg['reduce']))
+            else:
+                solver.RunEquationReduction = bool(cfg['reduce'])
             if cfg['where'] in ('solver', 'both'):
                 solver.MaxTime = cfg['horizon']
             solver.ParseString(text)
         solver.ParameterSolveInitialSteadyState = False
-        if cfg['where'] in LATE:
-            solver.MaxTime = cfg['late']        # too late: the block is parsed already
+        if cfg['where'] in LATE and cfg['solve']:
+            solver.MaxTime = cfg['late']        # too late for this block: it is parsed already
         pe['classes'], pe['maxtime'] = observe_parser(solver.Parser, '')
     except Exception as e:
         pe.update(ok=False, exc=type(e).__name__)
-        return [pe, _no_solve(type(e).__name__, dress)], text_shown
+        return [pe, _no_solve(type(e).__name__, dress)], text_shown, solver
+    if not cfg['solve']:
+        return [pe], text_shown, solver
     se = {'ev': 'Solve', 'dress': dress, 'ok': True, 'exc': '', 'ts_empty': False, 'taxis': False, 'obs': []}
+    before = solver.TimeSeries
     try:
         solver.SolveEquation()
     except Exception as e:
-        se.update(ok=False, exc=type(e).__name__, ts_empty=(len(solver.TimeSeries) == 0))
-        return [pe, se], text_shown
+        # "nothing solved": the solver still holds the series object it held before this call (empty on a new solver)
+        se.update(ok=False, exc=type(e).__name__,
+                  ts_empty=(solver.TimeSeries is before and (not fresh or len(before) == 0)))
+        return [pe, se], text_shown, solver
     se['obs'], se['taxis'] = observe_series(cfg, sup, solver.TimeSeries, '')
-    return [pe, se], text_shown
+    return [pe, se], text_shown, solver
+
+
+def execute_block(plan, dress, fseed):
+    """the history on ONE solver object; every event carries the number of its round"""
+    solver = None
+    events = []
+    texts = []
+    for r, cfg in enumerate(plan):
+        evs, text, solver = run_round(solver, cfg, dress, fseed + r)
+        for e in evs:
+            e['round'] = r + 1
+        events.extend(evs)
+        texts.append(text)
+        if solver is None:
+            break           # the constructor itself raised: there is no object to go on with
+    return events, '\n'.join(texts)
 
 
 def execute_model(cfg, dress, fseed):
@@ -314,8 +354,8 @@ def execute_model(cfg, dress, fseed):
     from sfc_models.sector import Sector
     sup = supplied_values(cfg, dress, fseed)
     rng = random.Random(fseed + 1)
-    pe = {'ev': 'Parse', 'cfg': cfg, 'api': 'model', 'dress': dress, 'ok': True, 'exc': '',
-          'classes': [], 'maxtime': 0}
+    pe = {'ev': 'Parse', 'fresh': True, 'round': 1, 'cfg': cfg, 'api': 'model', 'dress': dress, 'ok': True,
+          'exc': '', 'classes': [], 'maxtime': 0}
     calls = []
     mod = None
     try:
@@ -378,7 +418,8 @@ def execute_model(cfg, dress, fseed):
         pe.update(ok=False, exc=name)
         return [pe, _no_solve(name, dress)], text
     pe['classes'], pe['maxtime'] = observe_parser(solver.Parser, PREFIX)
-    se = {'ev': 'Solve', 'dress': dress, 'ok': True, 'exc': '', 'ts_empty': False, 'taxis': False, 'obs': []}
+    se = {'ev': 'Solve', 'round': 1, 'dress': dress, 'ok': True, 'exc': '', 'ts_empty': False, 'taxis': False,
+          'obs': []}
     if exc is not None:
         se.update(ok=False, exc=type(exc).__name__, ts_empty=(len(solver.TimeSeries) == 0))
         return [pe, se], text
@@ -418,8 +459,8 @@ def execute(case):
     (bounded work is C11's subject; here it only must not stall the check)."""
     def go():
         if case['api'] == 'model':
-            return execute_model(case['cfg'], case['dress'], case['fseed'])
-        return execute_block(case['cfg'], case['dress'], case['fseed'])
+            return execute_model(case['plan'][0], case['dress'], case['fseed'])
+        return execute_block(case['plan'], case['dress'], case['fseed'])
     limit = CASE_LIMITS_S[min(_hangs[0], len(CASE_LIMITS_S) - 1)]
     try:
         return _limited(go, limit)
@@ -428,8 +469,8 @@ def execute(case):
         if _hangs[0] > MAX_HANGS:
             raise core.MachineryError('the code under test did not come back on %d inputs (limit %g s each); '
                                       'last one: %s' % (_hangs[0], limit, core.canonical(case)[:600]))
-        pe = {'ev': 'Parse', 'cfg': case['cfg'], 'api': case['api'], 'dress': case['dress'], 'ok': False,
-              'exc': 'Hang', 'classes': [], 'maxtime': 0}
+        pe = {'ev': 'Parse', 'fresh': True, 'round': 1, 'cfg': case['plan'][0], 'api': case['api'],
+              'dress': case['dress'], 'ok': False, 'exc': 'Hang', 'classes': [], 'maxtime': 0}
         return [pe, _no_solve('Hang', case['dress'])], '(no answer within %g s)' % limit
 
 
@@ -475,11 +516,23 @@ def rejected_why(cfg):
     return why
 
 
-def signature(clause, case, events):
-    cfg = case['cfg']
+def signature(clause, case, events, rnd):
+    """rnd: the round (1-based) in which TLC gave the verdict"""
+    plan = case['plan']
+    rnd = min(max(rnd, 1), len(plan))
+    cfg = plan[rnd - 1]
     h = horizon_of(cfg)
-    obs = events[-1].get('obs', [])
+    mine = [e for e in events if e.get('round') == rnd] or events
+    obs = mine[-1].get('obs', [])
     head = case['api'] + ':'
+    if rnd > 1:
+        prev = plan[rnd - 2]
+        wrote = prev['where'] in ('solver', 'both') or prev['where'] in LATE
+        head += 'second-block-on-one-solver-after-%s-%s:' % (
+            'solver-maxtime-written' if wrote else 'block-line-only',
+            'shorter' if horizon_of(prev) < h else ('longer' if horizon_of(prev) > h else 'equal'))
+    if cfg['where'] == 'kept':
+        head += 'kept-solver-maxtime-vs-%s-block-line:' % ('larger' if cfg['bmax'] > cfg['horizon'] else 'smaller')
     if cfg['where'] == 'both':
         head += 'solver-maxtime-%s-vs-%s-block-line:' % (
             'zero' if cfg['horizon'] == 0 else 'positive', 'larger' if cfg['bmax'] > cfg['horizon'] else 'smaller')
@@ -510,8 +563,7 @@ def signature(clause, case, events):
 
 
 def nontrivial(case):
-    cfg = case['cfg']
-    return horizon_of(cfg) >= 1 or bool(cfg['ics']) or bool(rejected_why(cfg))
+    return any(horizon_of(cfg) >= 1 or bool(cfg['ics']) or bool(rejected_why(cfg)) for cfg in case['plan'])
 
 
 def make_cases(behs, seed, tier):
@@ -520,16 +572,16 @@ def make_cases(behs, seed, tier):
     rng = random.Random(seed)
     quick = tier == 'quick'
     cases = []
-    for i, b in enumerate(behs):
-        cases.append({'cfg': b['cfg'], 'api': 'block', 'dress': 'int', 'fseed': 0})
-    p_float = 0.45 if quick else 0.5
+    for b in behs:
+        cases.append({'plan': b['plan'], 'api': 'block', 'dress': 'int', 'fseed': 0})
+    p_float = 0.45 if quick else 0.4
     p_model = 0.60 if quick else 0.60
     for b in behs:
-        cfg = b['cfg']
+        plan = b['plan']
         if rng.random() < p_float:
-            cases.append({'cfg': cfg, 'api': 'block', 'dress': 'float', 'fseed': rng.randrange(1 << 30)})
-        if model_eligible(cfg) and rng.random() < p_model:
-            cases.append({'cfg': cfg, 'api': 'model', 'dress': rng.choice(['int', 'float']),
+            cases.append({'plan': plan, 'api': 'block', 'dress': 'float', 'fseed': rng.randrange(1 << 30)})
+        if len(plan) == 1 and model_eligible(plan[0]) and rng.random() < p_model:
+            cases.append({'plan': plan, 'api': 'model', 'dress': rng.choice(['int', 'float']),
                           'fseed': rng.randrange(1 << 30)})
     return cases
 
@@ -546,9 +598,7 @@ def judge(rep, cases, count=True):
         traces.append((i, events))
         texts.append(text)
         if count:
-            rep.add_case(dict(case, block=text, observed=events[-1]) if i < 3 else
-                         {'api': case['api'], 'dress': case['dress'], 'fseed': case['fseed'], 'cfg': case['cfg']},
-                         nontrivial(case))
+            rep.add_case(dict(case, block=text, observed=events[-1]) if i < 3 else case, nontrivial(case))
     verdicts, st, tr = core.validate_traces('MC_Horizon_Trace', 'MC_Horizon_Trace.cfg', traces, tag='c10',
                                             chunk=1500)
     rep.traces += len(traces)
@@ -556,29 +606,30 @@ def judge(rep, cases, count=True):
     tally = rep.extra.setdefault('outcomes', {})
     for i, case in enumerate(cases):
         events = traces[i][1]
-        key = '%s/%s/%s' % (case['api'], case['dress'], 'returned' if events[-1]['ok'] else 'raised')
+        key = '%s%s/%s/%s' % (case['api'], '-2-rounds' if len(case['plan']) > 1 else '', case['dress'],
+                              'returned' if events[-1]['ok'] else 'raised')
         tally[key] = tally.get(key, 0) + 1
-        v = verdicts[i]
-        if v == 'ok:':
+        kind, clause, rnd = verdicts[i].split(':')
+        if kind == 'ok':
             continue
-        kind, clause = v.split(':', 1)
+        rnd = int(rnd)
         full = dict(case, block=texts[i], observed=events)
         if kind == 'property':
-            rep.violate(clause, signature(clause, case, events), full,
+            rep.violate(clause, signature(clause, case, events, rnd), full,
                         detail='block:\n%s\nobserved %s' % (texts[i], json.dumps(events[-1])[:600]))
         else:
-            rep.add_drift(clause, {'api': case['api'], 'dress': case['dress'], 'fseed': case['fseed'],
+            rep.add_drift(clause, {'api': case['api'], 'dress': case['dress'], 'fseed': case['fseed'], 'round': rnd,
                                    'block': texts[i], 'exc': events[-1]['exc'],
-                                   'obs': events[-1]['obs']})
+                                   'obs': events[-1].get('obs', [])})
 
 
 def run(rep):
     cfgs = ['MC_Horizon_quick.cfg'] if rep.tier == 'quick' else ['MC_Horizon_quick.cfg', 'MC_Horizon_thorough.cfg']
     rep.rule = ('configurations = all initial states of the bounded Horizon instance (4 blueprints x exogenous form '
                 'and length x initial condition on none / each non-exogenous variable / all, as float, int or '
-                'undefined name x horizon x MaxTime in block / on solver before parsing / both with different values (solver wins, 0 included) / absent / in block and a larger or smaller value assigned to the solver after EquationSolver(block) or ParseString(block) x reduction on/off), each solved by '
+                'undefined name x horizon x MaxTime in block / on solver before parsing / both with different values (solver wins, 0 included) / absent / in block and a larger or smaller value assigned to the solver after EquationSolver(block) or ParseString(block) x reduction on/off; plus histories of two blocks parsed one after the other into ONE solver object - first round with the horizon only in its block (ParseString or constructor, solved or only parsed) or written to the solver (before or late), second round with its own MaxTime line / none / solver written again / the kept solver value against another line), each solved by '
                 'TLC and emitted; every one is replayed at block level with its integer values, a seeded sample again '
-                'with random float values and through the model API; distinct = distinct (configuration, api, dress, '
+                'with random float values and through the model API; distinct = distinct (history, api, dress, '
                 'float seed); non-trivial = horizon >= 1, or an initial condition, or a rejected input form')
     rep.exhaustive = True
     rep.assumptions = ['acyclic integer-valued blocks (sums of variables and constants); values of simultaneous and '
@@ -595,11 +646,12 @@ def run(rep):
         rep.add_tlc(res, 'exhaustive ' + cfg)
         behs = []
         for b in core.json_of_printed(res, 'BEH'):
-            k = core.canonical(b['cfg'])
+            k = core.canonical(b['plan'])
             if k not in seen:
                 seen.add(k)
                 behs.append(b)
-        behs.sort(key=lambda b: (b['outcome'] != 'done', -horizon_of(b['cfg']), -len(b['cfg']['ics'])))      # stable; samples show full cases
+        behs.sort(key=lambda b: (b['outcome'] != 'done', len(b['plan']), -horizon_of(b['plan'][-1]),
+                                 -len(b['plan'][-1]['ics'])))      # stable; samples show full cases
         if not behs:
             if cfg == cfgs[0]:
                 raise core.MachineryError('TLC emitted no behaviours for ' + cfg)
@@ -611,7 +663,12 @@ def replay(path):
     with open(path) as f:
         data = json.load(f)
     c = data['case']
-    case = {'cfg': c['cfg'], 'api': c['api'], 'dress': c['dress'], 'fseed': c['fseed']}
+    plan = c['plan'] if 'plan' in c else [c['cfg']]          # files written before histories existed
+    for cfg in plan:
+        cfg.setdefault('late', 0)
+        cfg.setdefault('bmax', 0)
+        cfg.setdefault('solve', True)
+    case = {'plan': plan, 'api': c['api'], 'dress': c['dress'], 'fseed': c['fseed']}
     rep = core.Report('C10', 'quick', 0)
     judge(rep, [case], count=False)
     events, text = execute(case)
